@@ -11,6 +11,7 @@ import (
 	"net/url"
 	"os"
 	"path/filepath"
+	"sort"
 	"strings"
 	"time"
 
@@ -46,6 +47,7 @@ var Symbols = map[string]string{
 	"ip_1": "192.168.0.1", "ip_256": "256.1.1.1",
 	"du_1": "1h2m3s", "du_90m": "90m", "du_1h30m0s": "1h30m0s", "du_frac": "1.5s", "du_bad": "1x",
 	"si_12": "12", "si_neg": "-7", "si_7": "7", "si_frac": "1.5", "si_big": "9223372036854775808",
+	"du_neg250ms": "-250ms", "du_neg1ns": "-1ns", "du_neg90m": "-90m", "du_neg1h30m0s": "-1h30m0s", "du_zero": "0s", "du_us": "1.5µs",
 	"e": "é", "quote": `"`, "bslash": `\`, "nl": "\n", "nul": "\x00", "ls": "\u2028", "astral": "\U0001F600", "ee": "ü", "lt": "<"}
 
 // SymbolsOf is the inverse: the symbol sequence of a concrete string.
@@ -130,6 +132,8 @@ func RenderSchema(s M, self string) M {
 		return M{}
 	case "self":
 		return M{"$ref": "#/components/schemas/" + self}
+	case "ref":
+		return M{"$ref": "#/components/schemas/D" + s["name"].(string)}
 	case "nullable":
 		out := RenderSchema(s["s"].(M), self)
 		out["nullable"] = true
@@ -240,6 +244,14 @@ func normalize(s M) M {
 func pick[T any](rng *rand.Rand, xs ...T) T { return xs[rng.IntN(len(xs))] }
 
 func randLeaf(rng *rand.Rand) M {
+	if len(Defs) > 0 && rng.IntN(8) == 0 {
+		names := make([]string, 0, len(Defs))
+		for n := range Defs {
+			names = append(names, n)
+		}
+		sort.Strings(names)
+		return M{"k": "ref", "name": pick(rng, names...)}
+	}
 	switch rng.IntN(5) {
 	case 0:
 		return M{"k": "bool"}
@@ -331,6 +343,10 @@ func randSchema(rng *rand.Rand, depth int, root bool) M {
 	return randLeaf(rng)
 }
 
+// Defs are the shared components of spec/SchemaValid.tla (set by Load); every generated
+// document carries all of them.
+var Defs map[string]M
+
 // Load returns the schema domain and the canonical instance sequence emitted by TLC.
 func Load(r *core.Run) (schemas []M, insts []M, aux string, err error) {
 	emit := func(mode string) ([][]byte, error) {
@@ -348,6 +364,21 @@ func Load(r *core.Run) (schemas []M, insts []M, aux string, err error) {
 			return nil, nil, "", err
 		}
 		schemas = append(schemas, v.Schema)
+	}
+	dl, err := emit("defs")
+	if err != nil {
+		return nil, nil, "", err
+	}
+	Defs = map[string]M{}
+	for _, l := range dl {
+		var v struct {
+			Name   string `json:"name"`
+			Schema M      `json:"schema"`
+		}
+		if err := json.Unmarshal(l, &v); err != nil {
+			return nil, nil, "", err
+		}
+		Defs[v.Name] = v.Schema
 	}
 	// the spec's table of symbol lengths has to describe the texts this harness sends
 	yl, err := emit("syms")
@@ -391,6 +422,9 @@ func Load(r *core.Run) (schemas []M, insts []M, aux string, err error) {
 func SpecFor(schemas []M, lo, hi int) []byte {
 	comps := M{}
 	paths := M{}
+	for n, d := range Defs {
+		comps["D"+n] = RenderSchema(d, "D"+n)
+	}
 	for i := lo; i < hi; i++ {
 		name := fmt.Sprintf("S%d", i)
 		comps[name] = RenderSchema(schemas[i], name)
